@@ -8,7 +8,8 @@ import "github.com/metrico/qryn/zzverif/vrt"
 // The stored tree rows of one profile: a fixed shape with symbolic weights that satisfy the writer's
 // conservation invariant (total = self + children), which VH_C16_conserve establishes for the writer.
 //
-//	root(0) -> A(1) -> C(3) [-> E(5) in thorough]
+//	root(0) -> A(1) -> D(4)
+//	                -> C(3) -> E(5)
 //	        -> B(2)
 type vmNode struct {
 	parent, id uint64
@@ -28,26 +29,27 @@ func vmProfile(tag string, allowMissing bool) []vmNode {
 	if allowMissing {
 		hasB = vrt.Bool(tag + "-has-B")
 	}
-	hasE := vrt.Thorough()
-	e := vmNode{parent: 3, id: 5, present: hasE}
-	if hasE {
-		e.self = v()
-		e.total = e.self
-	}
+	e := vmNode{parent: 3, id: 5, present: true}
+	e.self = v()
+	e.total = e.self
 	c := vmNode{parent: 1, id: 3, self: v(), present: true}
 	c.total = c.self + e.total
+	d := vmNode{parent: 1, id: 4, self: v(), present: true}
+	d.total = d.self
 	a := vmNode{parent: 0, id: 1, self: v(), present: true}
-	a.total = a.self + c.total
+	a.total = a.self + c.total + d.total
 	b := vmNode{parent: 0, id: 2, self: v(), present: hasB}
 	b.total = b.self
-	return []vmNode{a, b, c, e}
+	return []vmNode{a, b, d, c, e}
 }
 
 func vmRows(p []vmNode, order int) [][]any {
 	var rows [][]any
-	idx := []int{0, 1, 2, 3}
+	idx := []int{0, 1, 2, 3, 4}
 	if order == 1 {
-		idx = []int{3, 2, 1, 0}
+		idx = []int{4, 3, 2, 1, 0}
+	} else if order == 2 {
+		idx = []int{1, 0, 2, 3, 4} // the leaf root first, and the leaf child before the child with children
 	}
 	for _, i := range idx {
 		n := p[i]
@@ -65,7 +67,7 @@ func VH_C16_merge_bfs_arith() {
 	vrt.Unwind(300)
 	p1 := vmProfile("p1", false)
 	p2 := vmProfile("p2", true)
-	o1 := vrt.Choice("row-order-1", 2)
+	o1 := vrt.Choice("row-order-1", 3)
 	o2 := vrt.Choice("row-order-2", 2)
 	t := NewTree()
 	t.SampleTypes = []string{"cpu:ns"}
@@ -102,30 +104,39 @@ func VH_C16_merge_bfs_arith() {
 	tot := t.Total()
 	vrt.Assert(tot[0] == p1[0].total+p2[0].total+p1[1].total+vmIf(p2[1].present, p2[1].total), "tree-total-is-sum-of-root-totals")
 
-	// flame graph nesting
+	// flame graph nesting: every bar lies inside the span of its own parent's bar, siblings do not overlap
 	levels := t.BFS("cpu:ns")
 	vrt.Assert(len(levels) >= 2, "levels-present")
-	type bar struct{ x, w int64 }
-	var prev []bar
+	type bar struct {
+		x, w int64
+		seen bool
+	}
+	parentOf := map[string]string{"A": "total", "B": "total", "C": "A", "D": "A", "E": "C"}
+	spans := map[string]*bar{}
 	for li, lvl := range levels {
 		vrt.Assert(len(lvl.Values)%4 == 0, "level-values-in-quadruples")
-		var cur []bar
-		var x int64
+		var x, lastEnd int64
 		for k := 0; k+3 < len(lvl.Values); k += 4 {
 			x += lvl.Values[k]
-			b := bar{x, lvl.Values[k+1]}
+			b := &bar{x, lvl.Values[k+1], true}
 			vrt.Assert(lvl.Values[k+2] <= lvl.Values[k+1], "self-not-larger-than-total")
-			if li > 0 {
-				inside := false
-				for _, p := range prev {
-					inside = vrt.Any(inside, vrt.All(b.x >= p.x, b.x+b.w <= p.x+p.w))
-				}
-				vrt.Assert(inside, "bar-nests-inside-a-parent-span")
+			vrt.Assert(b.x >= lastEnd, "bars-of-a-level-do-not-overlap")
+			name := t.Names[lvl.Values[k+3]]
+			if li == 0 {
+				name = "total"
+			} else {
+				p := spans[parentOf[name]]
+				vrt.Assert(p != nil && p.seen, "parent-bar-drawn-on-an-earlier-level")
+				vrt.Assert(b.x >= p.x, "bar-starts-inside-its-parents-span")
+				vrt.Assert(b.x+b.w <= p.x+p.w, "bar-ends-inside-its-parents-span")
 			}
-			cur = append(cur, b)
+			spans[name] = b
 			x += b.w
+			lastEnd = x
 		}
-		prev = cur
+	}
+	for _, n := range []string{"A", "C", "D", "E"} {
+		vrt.Assert(spans[n] != nil, "every-node-has-a-bar")
 	}
 	vrt.Reach("end")
 }
